@@ -277,6 +277,11 @@ func (e *Engine) global(st *State, x *ssa.Global) Value {
 	}
 	et := x.Type().(*types.Pointer).Elem()
 	pk := x.Pkg
+	if v, ok := wellKnownGlobal(st, x); ok {
+		id := st.alloc(v)
+		st.Globals[x] = id
+		return Ptr{Obj: id}
+	}
 	if pk != nil && e.transparentPkg(pk.Pkg.Path()) && !st.Inited[pk] && !e.initMode {
 		e.runInit(st, pk)
 		if id, ok := st.Globals[x]; ok {
@@ -749,6 +754,12 @@ func (e *Engine) runInit(s *State, pk *ssa.Package) {
 func (e *Engine) jump(s *State, f *Frame, to *ssa.BasicBlock) {
 	if to.Dominates(f.Block) { // back edge
 		f.Visits[to.Index]++
+		// a new iteration of this loop: inner loops start counting afresh
+		for k := range f.Visits {
+			if k != to.Index && to.Dominates(f.Fn.Blocks[k]) {
+				delete(f.Visits, k)
+			}
+		}
 		if f.Visits[to.Index] > s.Unwind {
 			if e.feasible(s, True) {
 				where := f.Fn.Name()
@@ -1973,4 +1984,24 @@ func sortedKeys(m map[string]bool) []string {
 	}
 	sort.Strings(ks)
 	return ks
+}
+
+// wellKnownGlobal gives the value of a few dependency globals whose package init is not executed.
+func wellKnownGlobal(st *State, x *ssa.Global) (Value, bool) {
+	mkBig := func(n uint64) Value { return Ptr{Obj: st.alloc(Big{Neg: False, Mag: BVu(n, bigW)})} }
+	switch x.String() {
+	case "github.com/ethereum/go-ethereum/common.Big0":
+		return mkBig(0), true
+	case "github.com/ethereum/go-ethereum/common.Big1":
+		return mkBig(1), true
+	case "github.com/ethereum/go-ethereum/common.Big2":
+		return mkBig(2), true
+	case "github.com/ethereum/go-ethereum/common.Big3":
+		return mkBig(3), true
+	case "github.com/ethereum/go-ethereum/common.Big32":
+		return mkBig(32), true
+	case "github.com/ethereum/go-ethereum/common.Big256":
+		return mkBig(256), true
+	}
+	return nil, false
 }
